@@ -8,6 +8,7 @@ specifications (MC_P2J) and explores the machine specification on the same point
 """
 import glob
 import os
+import time
 
 from common import *
 import grammar as G
@@ -170,7 +171,7 @@ def oc_family(tier):
                 out.append(("oc_%d_%d_%s" % (i, j, cn), text))
     rng = random.Random(seed())
     rng.shuffle(out)
-    return out[: (60 if tier == "quick" else 400)]
+    return out[: (36 if tier == "quick" else 400)]
 
 
 KEEP_EV = {
@@ -195,7 +196,8 @@ def lean_outcome(o, prop):
     return {
         "en": o["en"], "w": o["w"], "s": o["s"], "panic": o["panic"], "walkpanic": o["walkpanic"],
         "flat": o["flat"] if prop == "C02" else [["r", "x", 0]],
-        "tree": o["tree"], "diags": o["diags"], "ev": ev,
+        "tree": o["tree"] if prop in ("C01", "C02", "C05", "C07", "C16") else {"r": "x", "lo": 0, "hi": 0, "c": []},
+        "diags": o["diags"], "ev": ev,
         "acts": [x["id"] for x in o.get("events", []) if x["e"] == "act"],
         "sigs": sigs_of_flat(o["flat"]) if prop in ("C02", "C08") else [],
     }
@@ -330,14 +332,11 @@ def judge(prop, tier):
     samples = []
     selftest = {"corrupted": 0, "rejected": 0}
 
-    def one(b):
+    def prepare(b):
         outs, meta = outcomes_for(b, cap, pairs, with_skips)
         if prop in ("C05", "C07"):
             # these two judge sentences only (a run with a diagnostic is C04's business)
             outs = [o for o in outs if not o["diags"] and not o["panic"]]
-        wd = cache_dir("p2", b.name)
-        gfile = os.path.join(wd, "G.ndjson")
-        write_ndjson(gfile, [G.export_to_tlc(b.export)])
         if pairs:
             recs = [{"o": lean_outcome(r["o"], prop), "so": lean_outcome(r["so"], prop)} for r in outs]
         else:
@@ -347,12 +346,57 @@ def judge(prop, tier):
         nreal = len(recs)
         if st is not None:
             recs = recs + [st]
-        rfile = os.path.join(wd, "R-%s.ndjson" % prop)
-        write_ndjson(rfile, recs)
+        return b, outs, meta, recs, nreal, st is not None
+    t_j = time.time()
+    prepared = [prepare(b) for b in sel]
+    # shards: a few JVMs, each judging several grammars (records carry the grammar index)
+    nshard = max(1, min(6, len(prepared)))
+    order = sorted(range(len(prepared)), key=lambda k: -len(prepared[k][3]))
+    shards = [[] for _ in range(nshard)]
+    for j, k in enumerate(order):
+        shards[j % nshard].append(k)
+    d = cache_dir("p2")
+
+    def run_shard(si):
+        ks = shards[si]
+        gfile = os.path.join(d, "JG-%s-%d.ndjson" % (prop, si))
+        rfile = os.path.join(d, "JR-%s-%d.ndjson" % (prop, si))
+        write_ndjson(gfile, [G.export_to_tlc(prepared[k][0].export) for k in ks])
+        allrecs, owner = [], []
+        for gi, k in enumerate(ks, 1):
+            for li, r in enumerate(prepared[k][3], 1):
+                allrecs.append(dict(r, g=gi))
+                owner.append((k, li))
+        write_ndjson(rfile, allrecs)
         res = run_tlc("MC_P2J", "MC_P2J_%s.cfg" % prop, env={"GFILE": gfile, "RFILE": rfile},
-                      workers=1, timeout=1500, xmx="3g", job="p2j-%s-%s" % (prop, b.name))
-        return b, outs, meta, recs, nreal, st is not None, res
-    results = parallel(one, sel)
+                      workers=2, timeout=3000, xmx="4g", job="p2j-%s-%d" % (prop, si), slow_start=len(allrecs) > 20000)
+        return si, res, owner
+    shard_results = parallel(run_shard, range(nshard))
+    vs_by_k = {k: [] for k in range(len(prepared))}
+    states_by_k = {k: 0 for k in range(len(prepared))}
+    tot_states = tot_gen = 0
+    for si, res, owner in shard_results:
+        if not res.ok:
+            log(res.raw[-2500:])
+            raise ToolError("TLC judge failed for %s shard %d: %s" % (prop, si, res.error))
+        tot_states += res.distinct
+        tot_gen += res.generated
+        for v in res.payload("V"):
+            if v:
+                k, li = owner[v["i"] - 1]
+                vs_by_k[k].append(dict(v, i=li))
+    log("%s: judge stage over %d grammars in %.0fs" % (prop, len(sel), time.time() - t_j))
+
+    class R:
+        pass
+    results = []
+    for k, (b, outs, meta, recs, nreal, has_st) in enumerate(prepared):
+        r = R()
+        r.ok, r.distinct, r.generated, r._vs = True, 0, 0, vs_by_k[k]
+        r.payload = (lambda vs: (lambda tag: vs))(vs_by_k[k])
+        results.append((b, outs, meta, recs, nreal, has_st, r))
+    stats["states"] += tot_states
+    stats["generated"] += tot_gen
     for b, outs, meta, recs, nreal, has_st, res in results:
         if not res.ok:
             log(res.raw[-2500:])
@@ -418,12 +462,18 @@ def judge(prop, tier):
     if prop == "C03":
         names = ("a06", "c04", "d01", "d06")
         fsel = [b for b in sel if tier == "thorough" or b.name[:3] in names]
+        t_f = time.time()
         rep.coverage["free_exploration"] = free_stage(fsel, cap)
+        log("free exploration over %d grammars in %.0fs" % (len(fsel), time.time() - t_f))
         rep.coverage["states"] += rep.coverage["free_exploration"]["states"]
         rep.coverage["transitions"] += rep.coverage["free_exploration"]["transitions"]
     if prop in ("C01", "C03", "C08"):
         # machine specification run on the same points: drift report + model-level invariants
-        mach, _ = machine_stage(sel, cap)
+        # quick: the corpus and a third of the enumerated families; thorough: everything
+        msel = sel if tier == "thorough" else [b for k, b in enumerate(sel) if not b.name.startswith("oc_") or k % 3 == 0]
+        t_m = time.time()
+        mach, _ = machine_stage(msel, cap)
+        log("machine conformance over %d grammars in %.0fs" % (len(msel), time.time() - t_m))
         rep.coverage["machine_conformance"] = mach
         rep.coverage["states"] += mach["states"]
         rep.coverage["transitions"] += mach["transitions"]
